@@ -1,76 +1,96 @@
 """C10 - generic dispatch equals the specification and is unaffected by its cache (sequential part)."""
-import json, os, re, shutil, tempfile
+import json, os
 
-from lib import common, pipeline
+from lib import common, gen, pipeline
 
 PROP = "C10"
 SPEC = os.path.join(common.VERIF, "spec", "Generic")
 
 
-def gen(max_ops, arity):
-    d = tempfile.mkdtemp(prefix="spec-c10-", dir=common.scratch())
-    for f in os.listdir(SPEC):
-        shutil.copy(os.path.join(SPEC, f), d)
-    cfg = open(os.path.join(SPEC, "Generic.cfg")).read()
-    cfg = re.sub(r"MaxOps = \d+", f"MaxOps = {max_ops}", cfg)
-    cfg = re.sub(r"Arity = \d+", f"Arity = {arity}", cfg)
-    open(os.path.join(d, "Generic.cfg"), "w").write(cfg)
-    r = common.run_tlc_with_files(d, "Generic", "Generic.cfg", {}, timeout=1500)
-    if r["errors"]:
-        raise common.Infra("Generic: " + "; ".join(r["errors"][:3]))
-    out = []
-    for row in common.emitted(r["out"]):
-        out.append({"arity": arity, "ops": row["hist"], "feat": sorted(row["feat"])})
-    return out, r
-
-
 def judge(stim, ev):
-    """Only the last operation is judged (every prefix is a stimulus of its own)."""
-    i = len(stim["ops"]) - 1
-    op, ob = stim["ops"][i], ev["steps"][i]
-    if op["op"] != "call":
-        return "" if not ob["st"] else f"{op['op']} failed: {ob['st']}"
-    if not op["app"]:
-        return "" if ob["st"] else f"call with no applicable method returned, trace {ob['trace']}"
-    if not op["prim"]:
-        return ""     # no applicable primary: the statement leaves the outcome open
-    if ob["st"] or ob["trace"] != op["exp"]:
-        return f"call {op['s']}: trace {ob['trace']} {ob['st']} want {op['exp']}"
+    """Every step is judged against what TLC computed from the reference."""
+    for i, (op, ob) in enumerate(zip(stim["ops"], ev["steps"])):
+        if ob.get("fault"):
+            return f"step {i + 1} {op['op']}: internal fault {ob['st']}"
+        if op["op"] != "call":
+            if ob["st"]:
+                return f"step {i + 1} {op['op']} {op['q']} {op['s']} failed: {ob['st']}"
+            continue
+        if not op["app"]:
+            if not ob["st"]:
+                return f"step {i + 1}: call {op['s']} with no applicable method returned, trace {ob['trace']}"
+            continue
+        if not op["det"]:
+            continue     # no applicable primary and no :around that stops: the statement leaves the outcome open
+        if ob["st"] or ob["trace"] != op["exp"]:
+            return f"step {i + 1}: call {op['s']} ran {ob['trace']} {ob['st']} want {op['exp']}"
     return ""
 
 
 def run(tier, seed):
     rep = common.Report(PROP, tier, seed)
     vdrive = common.build_harness()
-    d1 = int(os.environ.get("VERIF_DEPTH", 4 if tier == "quick" else 5))
-    s1, g1 = gen(d1, 1)
-    s2, g2 = gen(3 if tier == "quick" else 4, 2)
-    stimuli = s1 + s2
+    quick = tier == "quick"
+    d1 = int(os.environ.get("VERIF_DEPTH", 4 if quick else 5))
+    d2 = 3 if quick else 3
+    walks = int(os.environ.get("VERIF_WALKS", 150 if quick else 1500))
+    stimuli, gens = [], []
+    rows, g = gen.bfs(SPEC, "Generic", "Generic.cfg", {"MaxOps": d1, "Arity": 1}, timeout=3000)
+    stimuli += [{"arity": 1, "univ": "user", "ops": r["hist"]} for r in rows]
+    gens.append(g)
+    # the same histories against built-in classes (fixnum < integer < real < t): one level less
+    rows, g = gen.bfs(SPEC, "Generic", "Generic.cfg", {"MaxOps": d1 - 1, "Arity": 1}, timeout=3000)
+    stimuli += [{"arity": 1, "univ": "builtin", "ops": r["hist"]} for r in rows]
+    gens.append(g)
+    rows, g = gen.bfs(SPEC, "Generic", "Generic.cfg", {"MaxOps": d2, "Arity": 2}, timeout=3000)
+    stimuli += [{"arity": 2, "univ": "user", "ops": r["hist"]} for r in rows]
+    gens.append(g)
+    n_bfs = len(stimuli)
+    for k, (ar, mo) in enumerate(((2, 12), (1, 16))):
+        rows, g = gen.sim(SPEC, "Generic", "GenericSim.cfg", {"Arity": ar, "MaxOps": mo, "EmitFrom": mo}, num=walks, depth=mo + 4,
+                          seed=seed * 10 + k, timeout=3000)
+        stimuli += [{"arity": ar, "univ": "user" if k == 0 else "builtin", "ops": r["hist"]} for r in rows]
+        gens.append(g)
     for i, s in enumerate(stimuli):
         s["id"] = i + 1
-    rep.cov["states"], rep.cov["transitions"] = g1["distinct"] + g2["distinct"], g1["generated"] + g2["generated"]
-    open_feats = {f["feature"]: f for f in common.load_findings(PROP) if f.get("status") == "open"}
-    send = [{"id": s["id"], "arity": s["arity"], "ops": [{"op": o["op"], "q": o["q"], "s": o["s"]} for o in s["ops"]]} for s in stimuli]
+    send = [{"id": s["id"], "arity": s["arity"], "univ": s["univ"],
+             "ops": [{"op": o["op"], "q": o["q"], "s": o["s"], "v": o["v"]} for o in s["ops"]]} for s in stimuli]
     events = pipeline.drive(vdrive, "c10", send, chunk=500)
     by_t = {e["t"]: e for e in events}
-    hit = {}
+    shapes = set()
     for s in stimuli:
+        shapes.add(json.dumps([o["exp"] for o in s["ops"] if o["op"] == "call"]))
         why = judge(s, by_t[s["id"]])
-        if not why:
-            continue
-        known = [f for f in s["feat"] if f in open_feats]
-        if known:
-            for f in known:
-                hit.setdefault(f, []).append(s["id"])
-        else:
-            rep.violation({"property": PROP, "stimulus": s, "observed": by_t[s["id"]], "reason": why}, f"{json.dumps(s['ops'])}: {why}")
-    for feat, f in open_feats.items():
-        if feat in hit:
-            rep.known.append(f["summary"] + f" ({len(hit[feat])} probes rejected)")
-    rep.cov.update({"traces_validated_against_impl": len(stimuli), "evaluations": len(stimuli),
-                    "distinct_nontrivial": g1["distinct"] + g2["distinct"], "exhaustive": True,
-                    "rule": f"one history of defmethod/remove-method/call per transition of Generic (1 argument depth<={d1}, 2 arguments "
-                            "depth<=3/4; VIEW = method table + set of argument class tuples already called, i.e. the cache)",
-                    "samples": [{"stimulus": s["ops"]} for s in stimuli[:: max(1, len(stimuli) // 4)][:4]],
-                    "probes": {k: len(v) for k, v in hit.items()}})
+        if why:
+            rep.violation({"property": PROP, "stimulus": s, "observed": by_t[s["id"]], "reason": why},
+                          f"{json.dumps([[o['op'], o['q'], o['s'], o['v']] for o in s['ops']])}: {why}")
+    rep.cov.update({"states": sum(g.get("distinct", 0) for g in gens), "transitions": sum(g["generated"] for g in gens),
+                    "traces_validated_against_impl": len(stimuli), "evaluations": len(stimuli),
+                    "distinct_nontrivial": len(shapes), "exhaustive": True,
+                    "rule": f"one history of defmethod (new or replacing) / remove-method / call per transition of Generic.tla: 1 argument depth<={d1} "
+                            f"on a defclass chain and depth<={d1 - 1} on fixnum<integer<real, 2 arguments depth<={d2}; VIEW = method table + "
+                            f"what each argument class tuple ran when last called (ghost of the cache) - exhaustive; plus the final states of {walks} "
+                            "random walks each for 2 arguments x 12 operations and 1 argument x 16 operations through the same Next relation. "
+                            "Every call step of every history is compared with the effective-method trace TLC computed from the reference; "
+                            "distinct_nontrivial = distinct sequences of expected call traces",
+                    "samples": [{"stimulus": [[o["op"], o["q"], o["s"], o["v"]] for o in s["ops"]],
+                                 "expected_last": s["ops"][-1]["exp"]} for s in (stimuli[n_bfs // 3], stimuli[-1])],
+                    "gen": gens})
+    rep.assumptions = ["method bodies announce themselves through a harness function (vmark); :around version 1 calls call-next-method with the same arguments, version 2 does not",
+                       "when no primary method is applicable and no :around stops, the outcome is not constrained (statement silent)"]
     return rep.finish()
+
+
+def replay(path):
+    payload = json.load(open(path))
+    vdrive = common.build_harness()
+    s = payload["stimulus"]
+    send = {"id": s["id"], "arity": s["arity"], "univ": s["univ"], "ops": [{"op": o["op"], "q": o["q"], "s": o["s"], "v": o["v"]} for o in s["ops"]]}
+    ev = pipeline.drive(vdrive, "c10", [send])[0]
+    why = judge(s, ev)
+    print(json.dumps(ev))
+    if why:
+        print(f"VIOLATION property={PROP} replay={path}\n  {why}")
+        return 1
+    print("accepted")
+    return 0
